@@ -1,0 +1,30 @@
+//go:build verif
+
+package postgresql
+
+import (
+	"bytes"
+	"context"
+
+	"github.com/sirupsen/logrus"
+)
+
+// VerifHandleRowDescription runs handleRowDescription on a packet whose payload is the given
+// RowDescription body (client session with the query data items must be in ctx) and returns the
+// payload the client would be sent. Verification hook: add-only, compiled only with -tags verif.
+func VerifHandleRowDescription(ctx context.Context, payload []byte) ([]byte, error) {
+	proxy := &PgProxy{}
+	packet := &PacketHandler{descriptionBuf: bytes.NewBuffer(append([]byte{}, payload...)), descriptionLengthBuf: make([]byte, 4)}
+	packet.messageType[0] = 'T'
+	err := proxy.handleRowDescription(ctx, packet, logrus.NewEntry(logrus.StandardLogger()))
+	return append([]byte{}, packet.descriptionBuf.Bytes()...), err
+}
+
+// VerifHandleParameterDescription is the same for handleParameterDescription.
+func VerifHandleParameterDescription(ctx context.Context, payload []byte) ([]byte, error) {
+	proxy := &PgProxy{}
+	packet := &PacketHandler{descriptionBuf: bytes.NewBuffer(append([]byte{}, payload...)), descriptionLengthBuf: make([]byte, 4)}
+	packet.messageType[0] = 't'
+	err := proxy.handleParameterDescription(ctx, packet, logrus.NewEntry(logrus.StandardLogger()))
+	return append([]byte{}, packet.descriptionBuf.Bytes()...), err
+}
